@@ -151,6 +151,11 @@ def run(chk):
         afl = [[s, names[k % len(names)]] for k, s in enumerate(stations)]
         if step_at is not None:
             afl = [[0.0, names[0]], [0.5, names[0]], [0.5, names[1]], [1.0, names[1]]]
+        if it == 2 and len(names) >= 2:
+            # (enumerated) the same airfoil at root and tip, another one in between
+            mid_ = stations[1] if len(stations) > 2 else 0.4
+            afl = [[0.0, names[0]], [mid_, names[1]], [1.0, names[0]]]
+            chk.count("forced=same-airfoil-at-both-ends")
         ac["wings"]["w"]["airfoil"] = afl
         try:
             sc = gen.build_scene(MX, {"scene": {"atmosphere": {"rho": 0.0023769}}}, [("a", ac, {"velocity": 50.0, "alpha": 2.0}, {"flap": rng.choice([0.0, 4.0, -7.0])})])
